@@ -661,6 +661,7 @@ def run(pid, tier, seed, replay=None):
         "and by passing read-only arrays (a 'read-only' ValueError is a write attempt)",
         "entry-point matrix = the table ENTRIES in harness/drivers/alias.py mirrored into AliasMatrix.tla; entry points not in the table (plotting, export) are not covered",
         "a transformation with store=True may replace the array it was asked to transform in place",
+        "FieldStore.tla models the storage of Field / SRF objects as the code behaves, with three named deviations (D1-D3) that no listed property forbids",
     ]
     if replay:
         import json
@@ -756,6 +757,9 @@ def run(pid, tier, seed, replay=None):
         if behs["G_heap_n"]:
             rep.sample({"heap_behaviour": [tlaval.to_tla(s["op"]) for s in behs["G_heap_n"][0][1:]]}, cap=6)
     rep.extra["matrix_cells_executed"] = ncell
+    # part C: the storage machine of Field objects (FieldStore.tla, StoreConfig.tla)
+    from .. import fieldstore
+    fieldstore.run_part(rep, tier, rng)
     return rep.finish(
         level="model_checking",
         rule="evaluations = matrix cells (entry x role x layout x option subset, enumerated by TLC from AliasMatrix) executed with sentinel arrays + heap behaviours "
